@@ -14,6 +14,10 @@ LEAN_MODULES = ["AcnProofs.C01", "AcnProofs.C01Assemble", "AcnProofs.Lemmas.Even
                 # EventCoreSim family of C01 declare the same projection names)
                 "AcnProofs.C01Resume"]
 TIE_MODULES = ["AcnProofs.Lemmas.CodeTieQueue", "AcnProofs.Lemmas.CodeTieQueueOps", "AcnProofs.Lemmas.CodeTieEvseOps", "AcnProofs.Lemmas.CodeTieNetOps", "AcnProofs.Lemmas.CodeTieSimEvent", "AcnProofs.Lemmas.CodeTieSimEventNet"]
+# End-to-end capstone (C15 ∘ C01 ∘ C02 ∘ C18, C07 ∘ C16; lean/AcnProofs/Capstone.lean + CapstoneResume.lean): composes theorems of
+# SEVERAL properties, so it is built and audited with this check but can never fail it (check.py: EXTRA_MODULES — a
+# broken capstone is a note in evidence/C01.json `coverage.extra_modules`, not a violation, no forced search).
+EXTRA_MODULES = ["AcnProofs.Capstone", "AcnProofs.CapstoneResume"]
 DRIVER = "drv_C01"
 REQUIRED_THEOREMS = [
     "Acn.C01.prec_order", "Acn.C01.keyLt_strictWeakOrder", "Acn.C01.cfg0_valid", "Acn.C01.init_Inv",
